@@ -233,6 +233,10 @@ pub fn class_matches(expected: &str, got: &str) -> bool {
 /// `#<bytecode-closure>`, `#<function:car>` ... -> `#<proc>` (identity of opaque values is
 /// not part of the observable); `#<void>` is kept.
 pub fn normalize(s: &str) -> String {
+    // an error object (what a handler receives) prints as its message: opaque
+    if s.starts_with("Error: ") {
+        return "#<proc>".to_string();
+    }
     let mut out = String::with_capacity(s.len());
     let s = s.replace("(Continuation)", "#<proc>");
     let b: Vec<char> = s.chars().collect();
